@@ -39,8 +39,8 @@ def run_one(pid, m, slot):
             if s.count(e["find"]) != 1:
                 return {"id": m["id"], "result": "stale", "detail": "find matches %d times in %s" % (s.count(e["find"]), e["file"])}
             open(p, "w").write(s.replace(e["find"], e["replace"]))
-        env = dict(os.environ, VERIF_REPO=repo, VERIF_COMPDB_FROM=REPO, VERIF_OUT=os.path.join(root, "out"), VERIF_CACHE=os.path.join(root, "cache"))
-        r = subprocess.run([sys.executable, os.path.join(V, "bin", "check.py"), pid, "--tier", "quick"],
+        env = dict(os.environ, VERIF_REPO=repo, VERIF_COMPDB_FROM=REPO, VERIF_OUT=os.path.join(root, "out"), VERIF_CACHE=os.path.join(root, "cache"), VERIF_NO_SELFTEST="1")
+        r = subprocess.run([sys.executable, os.path.join(V, "bin", "check.py"), pid, "--tier", m.get("tier", "quick")],
                            capture_output=True, text=True, env=env)
         fired = sorted({l.split()[1].split(".", 1)[1] for l in r.stdout.splitlines() if l.startswith("FAIL ")})
         exp = m.get("expect") or []
